@@ -131,6 +131,22 @@ K uint64_t k_fn_address(uint64_t b0, uint64_t b1, uint32_t invoke_first, uint32_
   };
   return (inst & 1) ? run(s[1]) : run(s[0]);
 }
+// the same sandbox object is destroyed and created again with ANOTHER library that exports the same name: names used
+// by the first incarnation (invoked and/or address taken) must be resolved afresh
+K uint64_t k_reincarnate(uint64_t b0, uint64_t b1, uint32_t took_addr, long v) {
+  RL s[2]; setup(s, b0, b1);
+  s[0].invoke_sandbox_function(gf_s1, v);
+  if (took_addr) s[0].get_sandbox_function_address(gf_s1);
+  s[0].destroy_sandbox();
+  s[0].create_sandbox(b0, 0u);
+  s[0].get_sandbox_impl()->clear_symbols();
+  s[0].get_sandbox_impl()->add_symbol("gf_s1", (void*)&g1_s1, 0x308);
+  env_log(50, 0, 0, 0);
+  auto a = s[0].get_sandbox_function_address(gf_s1);
+  auto rep = a.UNSAFE_sandboxed(s[0]);
+  s[0].invoke_sandbox_function(gf_s1, v);
+  return (uint64_t)rep;
+}
 ''')
     return "\n".join(s) + "\n"
 
@@ -229,6 +245,26 @@ def check_two(ctx):
     ctx.expect(paths, ret=2)
 
 
+def check_reincarnate(ctx):
+    ctx.eng.max_strlen = 64
+    b0, b1 = bm_two_bases(ctx)
+    took = ctx.sym("took_addr", 32)
+    v = ctx.sym("v", 64)
+    ctx.assume(z3.ULE(took, 1), sext(v, 128) >= -(1 << 31), sext(v, 128) < (1 << 31))
+    paths = ctx.run("k_reincarnate", [b0, b1, took, v])
+    for q in paths:
+        if q.status == "ret":
+            lg = q.user.get("log") or []
+            cut = [i for i, e in enumerate(lg) if e[0] == 50][0]
+            after = [e for e in lg[cut:] if e[0] == 30]
+            ctx.require(q, z3.And(z3.BoolVal(len(after) == 1), bv(after[0][1]) == 1) if after else z3.BoolVal(False),
+                        "after destroy + create with another library the name reaches the new library's function, not a cached address of the old one")
+            ctx.require(q, q.ret == 0x308, "the function address handed out after re-creation is the new library's")
+        else:
+            ctx.fail(q, "re-created sandbox could not invoke (%s: %s)" % (q.status, q.info))
+    ctx.expect(paths, ret=2)
+
+
 def check_fnaddr(ctx):
     ctx.eng.max_strlen = 64
     b0, b1 = bm_two_bases(ctx)
@@ -313,7 +349,8 @@ def jobs(tier, seed):
     fl = ["-D_GLIBCXX_EXTERN_TEMPLATE=0"]
     items = [dict(name="BM %s %s" % (n, f), fn=check_sig, kw=dict(name=n, form=f), unwind=300) for n in SIGS for f in FORMS]
     items += [dict(name="BM two instances same name", fn=check_two, unwind=300), dict(name="BM function address before/after invoke", fn=check_fnaddr, unwind=300),
-              dict(name="BM function pointer argument", fn=check_fnptr_arg, unwind=300)]
+              dict(name="BM function pointer argument", fn=check_fnptr_arg, unwind=300),
+              dict(name="BM destroy + create with another library", fn=check_reincarnate, unwind=300)]
     out = [Job("C11_bm_%d" % i, src, items[i::6], flags=fl) for i in range(6)]
     out.append(Job("C11_noop_static", NOOP_SRC, [dict(name="noop static call", fn=check_noop, unwind=300)], native=False))
     return out
